@@ -464,7 +464,7 @@ namespace {
         c.close(dfr, dfl, KS * u * (bdf + bdf2) + dx * (std::fabs(rd2f) + bd2f) + tinyOf<T>(), "C11.spline.C1",
                 "slope jump at node " + std::to_string(i));
         const R third = bd2f2 / std::max<R>(rs.x[i + 1] - rs.x[i], tinyOf<T>());
-        c.close(d2fr, d2fl, 2 * KS * u * (bd2f + bd2f2) + dx * third + tinyOf<T>(), "C11.spline.C2",
+        c.close(d2fr, d2fl, 8 * KS * u * (bd2f + bd2f2) + dx * third + tinyOf<T>(), "C11.spline.C2",
                 "curvature jump at node " + std::to_string(i));
       }
     }
